@@ -99,7 +99,7 @@ def variants_at(doc, path, r):
     elif isinstance(v, str):
         cands = list(STRS) + [v[: len(v) // 2], v[:-1], v[:-2], v + v, v + "00", v.upper(), 7, None, [v], {"a": v}]
         if len(v) >= 4:
-            cands += [v[: r.randrange(0, len(v) // 2) * 2], v[2:]]
+            cands += [v[: r.randrange(0, max(1, len(v) // 2)) * 2], v[2:]]
     elif isinstance(v, list):
         cands = [[], v + v, v[:1], v[::-1], None, "x", {}, v * 50] + ([v[:-1]] if v else [])
     else:
@@ -119,12 +119,12 @@ def pair_variants(doc, r, n=40):
         if len(ps) < 2:
             break
         a, b = r.sample(ps, 2)
-        d1 = r.choice(variants_at(doc, a, r))
         try:
+            d1 = r.choice(variants_at(doc, a, r))
             get(d1, b)
-        except (KeyError, IndexError, TypeError):
-            continue
-        out.append(r.choice(variants_at(d1, b, r)))
+            out.append(r.choice(variants_at(d1, b, r)))
+        except (KeyError, IndexError, TypeError, ValueError):
+            continue  # the first mutation removed or reshaped the second path
     return out
 
 
